@@ -331,7 +331,7 @@ func finish(c *Ctx, info *propInfo, known *KnownFile, mut *mutantSummary, wall t
 	}
 	fns := sortedKeys(c.Fns)
 	cov := map[string]any{
-		"explanation":         info.Explanation,
+		"explanation":         info.Explanation + notesFor(c),
 		"evaluations":         len(c.Obls),
 		"distinct_nontrivial": len(c.oblIdx),
 		"rule":                "obligations are enumerated by the rule tables of " + prop + " over role functions found by API identity in /repo's current tree; an obligation is distinct by rule|function|detail and non-trivial because it was evaluated on at least one construct/path (roles with no construct are violations, not passes)",
